@@ -22,14 +22,37 @@ theorem readResponse_guards :
 
 /-- `lookupPeer.Command`: when not connected: Connect, state := connected, magic, connectCallback (only from
 `stateDisconnected`), and if the callback left the peer disconnected the command fails; then write + bounded read;
-every failure path calls `Close` (`LookupSync.command`: any failure ⇒ `conn := down`). -/
+every failure path calls `Close` (`LookupSync.command`: any failure ⇒ `conn := down`).
+Exactly two shapes are accepted until fixes/F36_lookup_peer_closes_on_error_reply.patch is committed: the current one
+(the reply is returned whatever it says: `commandR false`, finding `register-rejected-not-retried`, replayed) and the
+one with F36 (an `E_` reply closes the connection: `commandR true` = `command`). -/
 theorem command_shape :
-    command = ["assign:initialState := lp.state", "call:Connect", "assign:lp.state = stateConnected", "call:Write",
+    (command = ["assign:initialState := lp.state", "call:Connect", "assign:lp.state = stateConnected", "call:Write",
       "call:Close", "call:connectCallback", "call:WriteTo", "call:Close", "call:readResponseBounded", "call:Close"] ∧
-    commandGuards = ["assign initialState := lp.state", "if lp.state != stateConnected",
+     commandGuards = ["assign initialState := lp.state", "if lp.state != stateConnected",
       "assign lp.state = stateConnected", "if initialState == stateDisconnected", "if lp.state != stateConnected",
-      "if cmd == nil"] ∧
-    peerClose = ["assign:lp.state = stateDisconnected", "call:Close"] := ⟨rfl, rfl, rfl⟩
+      "if cmd == nil"]
+     ∨
+     command = ["assign:initialState := lp.state", "call:Connect", "assign:lp.state = stateConnected", "call:Write",
+      "call:Close", "call:connectCallback", "call:WriteTo", "call:Close", "call:readResponseBounded", "call:Close",
+      "call:Close"] ∧
+     commandGuards = ["assign initialState := lp.state", "if lp.state != stateConnected",
+      "assign lp.state = stateConnected", "if initialState == stateDisconnected", "if lp.state != stateConnected",
+      "if cmd == nil", "if bytes.HasPrefix(resp, []byte(\"E_\"))"]) ∧
+    peerClose = ["assign:lp.state = stateDisconnected", "call:Close"] := by decide
+
+/-- The read deadline (audit C9). Exactly two shapes are accepted until
+fixes/F39_lookup_peer_deadline_per_round_trip.patch is committed: the current one — `lookupPeer.Read` sets a fresh
+`time.Now()`-based deadline for EVERY Read, `Command` sets none: a drip-fed reply is never timed out (finding
+`slow-reply-holds-lookup-loop`, replayed) — and the one with F39: `Read` uses `lp.deadline`, which `Command` sets once
+before the magic write and once before each round trip (write + bounded read): a round trip takes at most 1 s. -/
+theorem read_deadline_shape :
+    (peerRead = ["call:SetReadDeadline", "call:Now", "call:Read"] ∧
+     commandDeadline = ["call:Write", "call:WriteTo", "call:readResponseBounded"])
+    ∨
+    (peerRead = ["call:SetReadDeadline", "call:Read"] ∧
+     commandDeadline = ["assign:lp.deadline = time.Now().Add(time.Second)", "call:Write",
+       "assign:lp.deadline = time.Now().Add(time.Second)", "call:WriteTo", "call:readResponseBounded"]) := by decide
 
 /-- `connectCallback` (tree with fixes/F14_connect_callback_skips_exiting.patch): IDENTIFY round trip, then under the
 read locks every topic's `Exiting()` is tested before its channel map is read and every channel's `Exiting()` before its
@@ -55,12 +78,41 @@ theorem lookupLoop_shape :
       "assign c, ok := t.channelMap[channelName]", "return return ok && !c.Exiting()"] := ⟨rfl, rfl, rfl⟩
 
 /-- `GetTopic` on a new topic: lookupd channel query and `GetChannel` for each non-`#ephemeral` name happen
-*before* `t.Start()`; skipped while loading metadata (`LookupSync.precreate`). -/
+*before* `t.Start()`; skipped while loading metadata and (F26, /repo 1121881) while nsqd is exiting — then the topic is
+handed out CLOSED and nothing is pre-created or started (`LookupSync.precreate` describes an nsqd that is neither
+loading nor exiting).
+Exactly two shapes are accepted until fixes/F35_precreate_validates_channel_names.patch is committed: the current one
+(every other name is created verbatim: `precreateG false`, finding `precreate-unvalidated-channel-name`, replayed) and
+the one with F35 (`IsValidChannelName` tested before `GetChannel`: `precreateG true` = `precreate`). -/
 theorem getTopic_precreate_before_start :
-    getTopicPrecreate = ["call:NewTopic", "call:lookupdHTTPAddrs", "call:GetLookupdTopicChannels", "call:HasSuffix",
-      "call:GetChannel", "call:Start"] ∧
-    getTopicGuards = ["if atomic.LoadInt32(&n.isLoading) == 1", "if len(lookupdHTTPAddrs) > 0",
-      "if strings.HasSuffix(channelName, \"#ephemeral\")"] := ⟨rfl, rfl⟩
+    (getTopicPrecreate = ["call:NewTopic", "call:Close", "call:lookupdHTTPAddrs", "call:GetLookupdTopicChannels",
+      "call:HasSuffix", "call:GetChannel", "call:Start"] ∧
+     getTopicGuards = ["assign exiting := atomic.LoadInt32(&n.isExiting) == 1", "if exiting",
+      "if atomic.LoadInt32(&n.isLoading) == 1", "if len(lookupdHTTPAddrs) > 0",
+      "if strings.HasSuffix(channelName, \"#ephemeral\")"]
+     ∨
+     getTopicPrecreate = ["call:NewTopic", "call:Close", "call:lookupdHTTPAddrs", "call:GetLookupdTopicChannels",
+      "call:HasSuffix", "call:IsValidChannelName", "call:GetChannel", "call:Start"] ∧
+     getTopicGuards = ["assign exiting := atomic.LoadInt32(&n.isExiting) == 1", "if exiting",
+      "if atomic.LoadInt32(&n.isLoading) == 1", "if len(lookupdHTTPAddrs) > 0",
+      "if strings.HasSuffix(channelName, \"#ephemeral\")", "if !protocol.IsValidChannelName(channelName)"]) := by
+  decide
+
+/-- which lookupds `GetTopic` asks (`Lookupd.identified`): `lookupdHTTPAddrs()` takes every configured peer whose cached
+`Info.BroadcastAddress` is non-empty — set by a successful IDENTIFY, never cleared — and nothing else is tested: in
+particular NOT the state of the TCP connection (seeded C16-m8 adds `lp.state != stateConnected`). -/
+theorem httpAddrs_only_needs_identified :
+    httpAddrsGuards = ["assign lookupPeers := n.lookupPeers.Load()", "if lookupPeers == nil",
+      "if len(lp.Info.BroadcastAddress) <= 0",
+      "assign addr := net.JoinHostPort(lp.Info.BroadcastAddress, strconv.Itoa(lp.Info.HTTPPort))"] ∧
+    httpAddrsNesting = [("JoinHostPort", ["for range lookupPeers.([]*lookupPeer)"])] := ⟨rfl, rfl⟩
+
+/-- `Topic.DeleteExistingChannel` (/repo c687824, F22): `channel.Delete()` is unconditional (its result is ignored: an
+overlapping deleter goes on) and the unlink is guarded by the identity test — the map entry is removed only while it
+still is the looked-up object (`LookupMore.stepD true`). The by-name shape (`stepD false`) is no longer accepted:
+its witness `C16More.converges_false_without_F22` is replayed by corpus/C16/fixed/double_delete_channel.ops. -/
+theorem deleteChannel_unlinks_own_object :
+    deleteChannelUnlink = [("Delete", []), ("delete", ["if t.channelMap[channelName] == channel"])] := rfl
 
 /-- Statement shape of the pre-creation: the `GetChannel` loop over the returned names is enclosed only by "some
 lookupd is known" — **not** by a test of the query's error — and `GetLookupdTopicChannels` returns the partial union
